@@ -103,7 +103,7 @@ pub static PROPS: &[PropDef] = &[
         run: c09::run,
         replay: c09::replay,
         workers: w16,
-        fuzz: &["udp_decoder", "icmp_packets", "client_random", "h1_heads", "socks5_server_bytes"],
+        fuzz: &["udp_decoder", "icmp_packets", "client_random", "h1_heads", "socks5_server_bytes", "icmp_mux_stream", "udp_roundtrip"],
     },
     PropDef {
         id: "C10",
@@ -119,7 +119,7 @@ pub static PROPS: &[PropDef] = &[
         run: c11::run,
         replay: c11::replay,
         workers: w16,
-        fuzz: &["icmp_packets"],
+        fuzz: &["icmp_packets", "icmp_mux_stream"],
     },
     PropDef {
         id: "C12",
@@ -215,7 +215,7 @@ pub static PROPS: &[PropDef] = &[
     run: c06::run,
     replay: c06::replay,
     workers: w16,
-        fuzz: &["udp_decoder"],
+        fuzz: &["udp_decoder", "udp_roundtrip"],
 }
 ];
 
